@@ -24,7 +24,7 @@ print(f"tests_missing_from_baseline={len(b - passed)}")
 PY
   rm -f "$X"
 fi
-MOUETTE_REPO="$D" VERIF_OUT_DIR="$D/out" /venv/bin/python check.py "$P" "$T" > "$D/log" 2>&1
+MOUETTE_REPO="$D" VERIF_OUT_DIR="$D/out" /venv/bin/python check.py "$P" "$T" $CHECK_ARGS > "$D/log" 2>&1
 grep -E "VIOLATION|signature=|exit=|HARNESS" "$D/log" | cut -c1-600 | head -8
 if [ -n "$KEEP_REPLAYS" ]; then mkdir -p "$KEEP_REPLAYS"; cp "$D"/out/replays/*.json "$KEEP_REPLAYS"/ 2>/dev/null; fi
 rm -rf "$D"
